@@ -236,9 +236,11 @@ func GenRuleSpec(r *Rand, bvs []BuilderView, pkg string, scope string, kind stri
 			}
 			// the same goes for a source name several builders answer to (after a
 			// rename that gave one name to many)
+			// (the source is looked up by exact name: builders whose names only fold onto it
+			// are bystanders)
 			nSrc := 0
 			for i := range bvs {
-				if strings.EqualFold(bvs[i].Name, rs.Source) {
+				if bvs[i].Name == rs.Source {
 					nSrc++
 				}
 			}
